@@ -185,12 +185,30 @@ def names_task():
     for n in (249, 1000, 4090, 5000, 70000):        # too long for the file system: a diagnostic, never a crash
         long_cases.append(('n' * n + '.hyeong', 'error'))
     long_cases.append(('/'.join(['sub'] * 1500) + '/x.hyeong', 'error'))
+    # other ways of naming an existing program: ./, through .., directories with a dot / a blank / Hangul in their names,
+    # absolute, through symbolic links to the file and to a directory (.. after such a link is the parent of its target)
+    os.makedirs(os.path.join(d, 'sub.dir', 'inner dir'))
+    os.makedirs(os.path.join(d, 'real', 'deep'))
+    for rel in ('sub.dir/y.hyeong', 'sub.dir/inner dir/프로그램.hyeong', 'real/z.hyeong', 'real/deep/w.hyeong'):
+        with open(os.path.join(d, rel), 'wb') as f:
+            f.write(good)
+    os.symlink('x.hyeong', os.path.join(d, 'link.hyeong'))
+    os.symlink('x.txt', os.path.join(d, 'link2.hyeong'))
+    os.symlink('real/deep', os.path.join(d, 'ldir'))
+    os.symlink('nowhere.hyeong', os.path.join(d, 'dangling.hyeong'))
+    path_cases = [('./x.hyeong', 'ok'), ('sub.dir/y.hyeong', 'ok'), ('sub.dir/inner dir/프로그램.hyeong', 'ok'),
+                  ('sub.dir/../x.hyeong', 'ok'), ('./sub.dir/./inner dir/../y.hyeong', 'ok'), (os.path.join(d, 'x.hyeong'), 'ok'),
+                  (os.path.join(d, 'sub.dir', '..', 'real', 'z.hyeong'), 'ok'), ('link.hyeong', 'ok'), ('link2.hyeong', 'ok'),
+                  ('ldir/w.hyeong', 'ok'), ('ldir/../z.hyeong', 'ok'), ('real/deep/../../ldir/../z.hyeong', 'ok'),
+                  ('dangling.hyeong', 'error'), ('ldir/../x.hyeong', 'error'), ('sub.dir', 'error'), ('sub.dir/', 'error')]
+    long_cases += path_cases
     cases = long_cases + [('x.hyeong', 'ok'), ('x', 'error'), ('x.txt', 'error'), ('x.HYEONG', 'error'), ('.hyeong', 'error'),
              ('missing.hyeong', 'error'), ('d.hyeong', 'error'), ('nodir/x.hyeong', 'error'), ('한글 이름.hyeong', 'ok'),
              (b'\xff.hyeong', None), ('', 'error'), ('x.hyeong/', 'error')]
     for name, exp in cases:
         for sub in (['run', '-O0'], ['run', '-O1'], ['run', '-O2'], ['check'], ['--verbose', 'run', '-O2'], ['--verbose', 'check'],
-                    ['run'], ['run', '--optimize', '1'], ['run', '-O2', 'COLOUR'], ['check', 'COLOUR']):
+                    ['run'], ['run', '--optimize', '1'], ['run', '--optimize=2'], ['run', '-O', '2'], ['run', '-O2', 'COLOUR'],
+                    ['check', 'COLOUR']):
             colour = b'never'
             if sub[-1] == 'COLOUR':
                 sub, colour = sub[:-1], b'always'
@@ -362,7 +380,7 @@ def run_c13(tier):
                 'valid programs (status 0, requested status, or status 1 with an [error] diagnostic)',
         'scope': {'fragments': [f.hex() for f in FRAGS], 'max_fragments': n, 'contents': len(contents),
                   'stdin_variants_for_reading_programs': [s.hex() if len(s) < 50 else '64KiB line' for s in STDINS],
-                  'special_programs': len(sp), 'undecodable_stdin_ladder': len(bs), 'file_name_cases': 22, 'step_budget': BUDGET},
+                  'special_programs': len(sp), 'undecodable_stdin_ladder': len(bs), 'file_name_cases': 38, 'step_budget': BUDGET},
         'distinct_outcomes': sorted(st.sets.get('outcome', ())),
         'samples': [{'content_hex': (FRAGS[2] + FRAGS[1] + FRAGS[9]).hex(), 'cmd': 'run -O2'},
                     {'name': 'd.hyeong (a directory)', 'cmd': 'check'}, {'prog': 'write 0xD800 to stderr after a read', 'cmd': 'run -O1'}],
